@@ -117,6 +117,29 @@ def tEnv : Env where
 
 example : (evalTop tEnv (0, []) {}).1 = .formulaError (.user kKey) [(0, []), (2, [])] := by decide
 
+/-! The same kind three times: `c0` handles a `ValueError` of `c3`, handles another one that came through
+`c4 → c3`, and then fails with a third `ValueError` through `c4 → c3`.  The kinds cannot tell the three
+failures apart, and the handled ones unwound the very elements the escaping one unwinds; the identity of
+the exception kept with every rolled-back element does: the traceback is `[c0, c4, c3]`, once. -/
+def uCells : CellId → Option Expr
+  | 0 => some (.add (.try_ (.call 3 []) .all (.lit 0))
+            (.add (.try_ (.call 4 []) (.user kValue) (.lit 0)) (.call 4 [])))
+  | 3 => some (.raise kValue)
+  | 4 => some (.call 3 [])
+  | _ => none
+
+def uEnv : Env where
+  formula := fun n => match uCells n.1 with
+    | some e => formulaOf (fun c => (uCells c).map (fun _ => 0)) e n.2
+    | none => .raise (.user kName)
+  cached := fun c => c != 4
+  allowNone := fun _ => false
+  refs := fun _ => .none
+  maxdepth := 10
+
+example : (evalTop uEnv (0, []) {}).1 = .formulaError (.user kValue) [(0, []), (4, []), (3, [])] := by decide
+example : ((runN uEnv 11 (0, []) {}).2.rolledback.map (·.1)) =
+    [(3, []), (3, []), (4, []), (3, []), (4, []), (0, [])] := by decide
 /-- `ProperEnv` is not a restriction on the formulas of the grammar: every compiled formula is
 proper (`formulaOf_proper`), so the theorem applies to every program the driver runs. -/
 theorem grammar_env_is_proper (cells : CellId → Option Expr) (ar : CellId → Option Nat)
@@ -130,5 +153,6 @@ theorem grammar_env_is_proper (cells : CellId → Option Expr) (ar : CellId → 
   · simp [Proper]
 
 example : ProperEnv tEnv := grammar_env_is_proper tCells _ tEnv (fun _ => rfl)
+example : ProperEnv uEnv := grammar_env_is_proper uCells _ uEnv (fun _ => rfl)
 
 end MxModel.C17
